@@ -5,74 +5,185 @@
    error-location record after reads.  Every event carries the call with its arguments and the
    result; `dump` events carry the complete listing of an object, which must be exactly the
    model's.  The first non-conforming event of a history is printed (mismatch record), the rest
-   of that history skipped.                                                                   *)
+   of that history skipped.
+
+   Two producers: the harness' mixed histories (vf/p_econf.py) and the REPOSITORY'S OWN TEST PROGRAMS run
+   under the trace shim (shim/shim.c, vf/p_suite.py): there every public call of the test is an event,
+   the files a read may consult are snapshotted as they are on disk right before the call (`file`,
+   `nofile`, `forget`), and after every call that creates or changes an object the shim dumps the object
+   through the real getters - so the assertions the tests do not make are made here.
+   What the specification does not model (float formatting, restrictions in force, tags set by hand)
+   turns the object concerned into Opaque: known to exist, nothing asserted about it until it is
+   replaced; a history is never rejected for leaving the modelled fragment.                    *)
 EXTENDS Econf, Json, IOUtils, TLC
 Tr == ndJsonDeserialize(IOEnv.TRACE)
-VARIABLES l, fs, objs, errloc, diverged
-vars == <<l, fs, objs, errloc, diverged>>
-Handles == 0..9
+VARIABLES l, fs, objs, errloc, diverged,
+          gposts,      \* process-wide drop-in postfix list (econf_set_conf_dirs); <<>> = default
+          sec,         \* TRUE while a process-wide restriction may be in force (not modelled here: Security.tla)
+          lw           \* the last econf_writeFile: [path, known] - the snapshot that follows must show the predicted bytes
+vars == <<l, fs, objs, errloc, diverged, gposts, sec, lw>>
+Handles == 0..63
+Opaque == [opaque |-> TRUE]
 NoObjs == [h \in Handles |-> Null]
 EmptyFs == [p \in {} |-> <<>>]
 \* errloc.valid: the record is only specified after a read that FAILED with a parse error (C13); after a successful
 \* read it holds whatever the last scanned line happened to be (an empty file does not even reset the line number)
 NoLoc == [file |-> <<>>, line |-> 0, valid |-> FALSE]
-Init == l = 1 /\ fs = EmptyFs /\ objs = NoObjs /\ errloc = NoLoc /\ diverged = FALSE
+NoWrite == [path |-> <<>>, known |-> FALSE]
+Init == l = 1 /\ fs = EmptyFs /\ objs = NoObjs /\ errloc = NoLoc /\ diverged = FALSE /\ gposts = <<>> /\ sec = FALSE /\ lw = NoWrite
+Globals == <<gposts, sec, lw>>
 IsEvent(e) == l <= Len(Tr) /\ Tr[l].e = e /\ l' = l + 1
 Ev == Tr[l]
 Mismatch(what) == PrintT(ToJson([mismatch |-> l, spec |-> what]))
 Check(cond, what) == IF diverged \/ cond THEN UNCHANGED diverged ELSE diverged' = TRUE /\ Mismatch(what)
 Ok(rc) == rc = "ECONF_SUCCESS"
 Live(h) == h # 0 /\ objs[h] # Null
+Known(h) == Live(h) /\ objs[h] # Opaque
+Has(f) == f \in DOMAIN Ev
 FsPut(f, p, lines) == [q \in DOMAIN f \cup {p} |-> IF q = p THEN lines ELSE f[q]]
 NormO(o) == IF o = <<>> THEN <<<<>>>> ELSE o
 
-TReset == IsEvent("reset") /\ fs' = EmptyFs /\ objs' = NoObjs /\ errloc' = NoLoc /\ diverged' = FALSE
-TFile == IsEvent("file") /\ fs' = FsPut(fs, Ev.path, Ev.lines) /\ UNCHANGED <<objs, errloc, diverged>>
+TReset == IsEvent("reset") /\ fs' = EmptyFs /\ objs' = NoObjs /\ errloc' = NoLoc /\ diverged' = FALSE /\ gposts' = <<>> /\ sec' = FALSE /\ lw' = NoWrite
+\* a file as it is on disk; `check`: the snapshot right after an econf_writeFile must show what the specification predicted
+TFile == /\ IsEvent("file") /\ fs' = FsPut(fs, Ev.path, Ev.lines) /\ UNCHANGED <<objs, errloc, gposts, sec>> /\ lw' = NoWrite
+         /\ IF Has("check") /\ Ev.check /\ lw.known /\ lw.path = Ev.path
+            THEN Check(fs[Ev.path] = Ev.lines, [written |-> fs[Ev.path]]) ELSE UNCHANGED diverged
+FsDrop(f, P) == [q \in DOMAIN f \ P |-> f[q]]
+TNoFile == IsEvent("nofile") /\ fs' = FsDrop(fs, {Ev.path}) /\ UNCHANGED <<objs, errloc, diverged, Globals>>
+TForget == IsEvent("forget") /\ fs' = FsDrop(fs, {q \in DOMAIN fs : IsPrefixOf(Ev.prefix, q)}) /\ UNCHANGED <<objs, errloc, diverged, Globals>>
 TNew == /\ IsEvent("new") /\ objs' = [objs EXCEPT ![Ev.h] = NewObject(Ev.d, Ev.c)]
-        /\ UNCHANGED <<fs, errloc>> /\ Check(Ok(Ev.rc), [rc |-> "ECONF_SUCCESS"])
+        /\ UNCHANGED <<fs, errloc, Globals>> /\ Check(Ok(Ev.rc), [rc |-> "ECONF_SUCCESS"])
+TNewOpt == /\ IsEvent("newopt") /\ UNCHANGED <<fs, errloc, Globals>>
+           /\ LET r == OptResult(Ev.items) IN
+              /\ objs' = IF Ev.h = 0 THEN objs ELSE [objs EXCEPT ![Ev.h] = r.obj]
+              /\ Check(Ev.rc = r.rc, [rc |-> r.rc])
+\* while restrictions may be in force, or when the caller's callback refused a file, the outcome of a read is not predicted
+Unpredicted == sec \/ (Has("cb") /\ Ev.cb /\ Ev.rc = "ECONF_PARSING_CALLBACK_FAILED")
+AfterRead(h, obj) == IF h = 0 THEN objs ELSE [objs EXCEPT ![h] = obj]
 TReadFile == /\ IsEvent("readfile")
-             /\ LET r == ReadResult(fs, Ev.path, Ev.delim, Ev.comment) IN
-                /\ objs' = [objs EXCEPT ![Ev.h] = r.obj]
+             /\ IF Unpredicted
+                THEN objs' = AfterRead(Ev.h, IF Ok(Ev.rc) THEN Opaque ELSE Null) /\ errloc' = [errloc EXCEPT !.valid = FALSE] /\ UNCHANGED diverged
+                ELSE LET r == ReadResult(fs, Ev.path, Ev.delim, Ev.comment) IN
+                /\ objs' = AfterRead(Ev.h, r.obj)
                 /\ errloc' = IF Ev.path \in DOMAIN fs THEN [file |-> Ev.path, line |-> r.errline, valid |-> r.rc # "ECONF_SUCCESS"] ELSE [errloc EXCEPT !.valid = FALSE]
                 /\ Check(Ev.rc = r.rc, [rc |-> r.rc])
-             /\ UNCHANGED fs
+             /\ UNCHANGED <<fs, Globals>>
 TReadDirs == /\ IsEvent("readdirs")
-             /\ LET r == ReadDirsResultOpt(fs, Ev.dirs, Ev.name, Ev.sfx, Ev.delim, Ev.comment, Ev.python, Ev.join) IN
-                /\ objs' = [objs EXCEPT ![Ev.h] = r.obj]
+             /\ IF Unpredicted
+                THEN objs' = AfterRead(Ev.h, IF Ok(Ev.rc) THEN Opaque ELSE Null) /\ errloc' = [errloc EXCEPT !.valid = FALSE] /\ UNCHANGED diverged
+                ELSE LET r == ReadDirsResultC(fs, Ev.dirs, Ev.name, Ev.sfx, Ev.delim, Ev.comment, Ev.python, Ev.join, gposts) IN
+                /\ objs' = AfterRead(Ev.h, r.obj)
                 /\ errloc' = IF r.errfile = <<>> THEN [errloc EXCEPT !.valid = FALSE] ELSE [file |-> r.errfile, line |-> r.errline, valid |-> r.rc # "ECONF_SUCCESS"]
                 /\ Check(Ev.rc = r.rc, [rc |-> r.rc])
-             /\ UNCHANGED fs
-TSet == /\ IsEvent("set") /\ UNCHANGED <<fs, errloc>>
+             /\ UNCHANGED <<fs, Globals>>
+\* econf_readConfig*: hin = the object handed in (0: NULL); on success it is replaced by the result h, on failure it stays
+TReadConfig == /\ IsEvent("readconfig") /\ UNCHANGED <<fs, Globals>>
+               /\ IF Unpredicted \/ (Ev.hin # 0 /\ ~Known(Ev.hin))
+                  THEN /\ objs' = IF Ok(Ev.rc) THEN [[objs EXCEPT ![Ev.hin] = Null] EXCEPT ![Ev.h] = Opaque] ELSE objs
+                       /\ errloc' = [errloc EXCEPT !.valid = FALSE] /\ UNCHANGED diverged
+                  ELSE LET opt == IF Ev.hin = 0 THEN DefaultOpt ELSE objs[Ev.hin].opt
+                           r == ReadConfigResult(fs, opt, Ev.project, Ev.usr, Ev.name, Ev.sfx, Ev.delim, Ev.comment, gposts) IN
+                       /\ objs' = IF r.rc = "ECONF_SUCCESS" /\ Ev.h # 0 THEN [[objs EXCEPT ![Ev.hin] = Null] EXCEPT ![Ev.h] = r.obj] ELSE objs
+                       /\ errloc' = IF r.errfile = <<>> THEN [errloc EXCEPT !.valid = FALSE] ELSE [file |-> r.errfile, line |-> r.errline, valid |-> r.rc # "ECONF_SUCCESS"]
+                       /\ Check(Ev.rc = r.rc, [rc |-> r.rc])
+\* history variants: one object per consulted file, in processing order
+TReadHist == /\ IsEvent("readhist") /\ UNCHANGED <<fs, Globals>> /\ errloc' = [errloc EXCEPT !.valid = FALSE]
+             /\ IF Unpredicted
+                THEN objs' = [h \in Handles |-> IF \E j \in 1..Len(Ev.hs) : Ev.hs[j] = h THEN Opaque ELSE objs[h]] /\ UNCHANGED diverged
+                ELSE LET r == HistoryResult(fs, Ev.dirs, Ev.name, Ev.sfx, Ev.delim, Ev.comment, gposts) IN
+                     /\ objs' = [h \in Handles |-> LET J == {j \in 1..Len(Ev.hs) : Ev.hs[j] = h} IN
+                                                     IF J = {} \/ h = 0 THEN objs[h] ELSE IF Max(J) <= Len(r.objs) THEN r.objs[Max(J)] ELSE Opaque]
+                     /\ Check(Ev.rc = r.rc /\ Len(Ev.hs) = Len(r.objs), [rc |-> r.rc, n |-> Len(r.objs)])
+\* T absent or "String": the text as given; integer types: the canonical decimal text of the value (neg, mag);
+\* "Bool": the argument is a spelling, stored as true / false, other texts are refused; floating types: not modelled
+SetKind == IF Has("T") THEN Ev.T ELSE "String"
+TSet == /\ IsEvent("set") /\ UNCHANGED <<fs, errloc, Globals>>
         /\ IF ~Live(Ev.h) \/ Ev.k = <<>> \/ Ev.k = <<<<>>>>
            THEN UNCHANGED objs /\ Check(~Ok(Ev.rc), [refused |-> TRUE])
-           ELSE /\ objs' = [objs EXCEPT ![Ev.h] = SetE(objs[Ev.h], GroupArg(Ev.g), Ev.k[1], IF Ev.v = <<>> THEN <<>> ELSE Ev.v[1])]
+           ELSE IF ~Known(Ev.h) THEN UNCHANGED <<objs, diverged>>
+           ELSE IF SetKind \in {"Float", "Double"}
+           THEN objs' = [objs EXCEPT ![Ev.h] = IF Ok(Ev.rc) THEN Opaque ELSE @] /\ UNCHANGED diverged
+           ELSE IF SetKind = "Bool"
+           THEN LET w == IF Ev.v = <<>> THEN [rc |-> "err", v |-> FALSE] ELSE BoolMeaning(Ev.v[1]) IN
+                IF Ev.v # <<>> /\ Ev.v[1] = <<>> THEN objs' = [objs EXCEPT ![Ev.h] = IF Ok(Ev.rc) THEN Opaque ELSE @] /\ UNCHANGED diverged   \* empty spelling: unspecified
+                ELSE IF w.rc = "ok"
+                THEN /\ objs' = [objs EXCEPT ![Ev.h] = SetE(objs[Ev.h], GroupArg(Ev.g), Ev.k[1], BoolText(w.v))]
+                     /\ Check(Ok(Ev.rc), [rc |-> "ECONF_SUCCESS"])
+                ELSE UNCHANGED objs /\ Check(~Ok(Ev.rc), [refused |-> TRUE])
+           ELSE /\ objs' = [objs EXCEPT ![Ev.h] = SetE(objs[Ev.h], GroupArg(Ev.g), Ev.k[1],
+                                                       IF SetKind \in Types THEN IntText(Ev.neg, Ev.mag) ELSE IF Ev.v = <<>> THEN <<>> ELSE Ev.v[1])]
                 /\ Check(Ok(Ev.rc), [rc |-> "ECONF_SUCCESS"])
-TGet == /\ IsEvent("get") /\ UNCHANGED <<fs, objs, errloc>>
+TGet == /\ IsEvent("get") /\ UNCHANGED <<fs, objs, errloc, Globals>>
         /\ IF ~Live(Ev.h) \/ Ev.k = <<>> \/ Ev.k = <<<<>>>> THEN Check(~Ok(Ev.rc), [refused |-> TRUE])
+           ELSE IF ~Known(Ev.h) \/ (Has("isdef") /\ Ev.isdef) THEN UNCHANGED diverged
            ELSE LET o == objs[Ev.h]  i == FindE(o, GroupArg(Ev.g), Ev.k[1]) IN
                 IF i = 0 THEN Check(Ev.rc = "ECONF_NOKEY", [rc |-> "ECONF_NOKEY"])
-                ELSE LET w == IF o.ents[i].hasv THEN <<o.ents[i].v>> ELSE <<>> IN
+                ELSE IF SetKind = "String"
+                THEN LET w == IF o.ents[i].hasv THEN <<o.ents[i].v>> ELSE <<>> IN
                      Check(Ok(Ev.rc) /\ NormO(Ev.out) = NormO(w), [rc |-> "ECONF_SUCCESS", out |-> w])
-TMerge == /\ IsEvent("merge") /\ UNCHANGED <<fs, errloc>>
+                ELSE IF SetKind \in Types
+                THEN \* C09: a stored text that is an integer literal yields its value or a conversion error, never another number
+                     LET p == LitOfText(IF o.ents[i].hasv THEN o.ents[i].v ELSE <<>>) IN
+                     IF ~o.ents[i].hasv THEN Check(~Ok(Ev.rc), [refused |-> TRUE])
+                     ELSE IF ~p.ok THEN UNCHANGED diverged
+                     ELSE LET w == IntMeaning(SetKind, p.lit)
+                              \* the returned number written in the base of the literal (mag8 / mag16 from the recorder)
+                              got == IF p.lit.base = 8 /\ Has("mag8") THEN Ev.mag8 ELSE IF p.lit.base = 16 /\ Has("mag16") THEN Ev.mag16 ELSE Ev.mag IN
+                          Check(Ev.rc = w.rc /\ (Ok(w.rc) => Ev.neg = w.neg /\ Norm(got) = w.mag), w)
+                ELSE IF SetKind = "Bool" /\ o.ents[i].hasv
+                THEN LET w == BoolMeaning(o.ents[i].v) IN Check(Ok(Ev.rc) = (w.rc = "ok") /\ (w.rc = "ok" => Ev.bool = w.v), w)
+                ELSE UNCHANGED diverged
+TMerge == /\ IsEvent("merge") /\ UNCHANGED <<fs, errloc, Globals>>
           /\ IF ~Live(Ev.a) \/ ~Live(Ev.b)
-             THEN objs' = [objs EXCEPT ![Ev.h] = Null] /\ Check(~Ok(Ev.rc), [refused |-> TRUE])
+             THEN objs' = (IF Ev.h = 0 THEN objs ELSE [objs EXCEPT ![Ev.h] = Null]) /\ Check(~Ok(Ev.rc), [refused |-> TRUE])
+             ELSE IF ~Known(Ev.a) \/ ~Known(Ev.b)
+             THEN objs' = (IF Ev.h = 0 THEN objs ELSE [objs EXCEPT ![Ev.h] = IF Ok(Ev.rc) THEN Opaque ELSE Null]) /\ UNCHANGED diverged
              ELSE /\ objs' = [objs EXCEPT ![Ev.h] = MergeObjects(objs[Ev.a], objs[Ev.b])]
                   /\ Check(Ok(Ev.rc), [rc |-> "ECONF_SUCCESS"])
-TWrite == /\ IsEvent("write") /\ UNCHANGED <<objs, errloc>>
-          /\ IF ~Live(Ev.h) THEN UNCHANGED fs /\ Check(~Ok(Ev.rc), [refused |-> TRUE])
-             ELSE /\ fs' = FsPut(fs, Ev.path, WriteLines(objs[Ev.h]))
+TWrite == /\ IsEvent("write") /\ UNCHANGED <<objs, errloc, gposts, sec>>
+          /\ IF ~Live(Ev.h) THEN UNCHANGED fs /\ lw' = NoWrite /\ Check(~Ok(Ev.rc), [refused |-> TRUE])
+             ELSE IF ~Known(Ev.h) THEN fs' = FsDrop(fs, {Ev.path}) /\ lw' = NoWrite /\ UNCHANGED diverged
+             ELSE IF Has("dir_ok") /\ ~Ev.dir_ok THEN UNCHANGED fs /\ lw' = NoWrite /\ Check(~Ok(Ev.rc), [refused |-> TRUE])     \* no such directory
+             ELSE /\ fs' = FsPut(fs, Ev.path, WriteLines(objs[Ev.h])) /\ lw' = [path |-> Ev.path, known |-> TRUE]
                   /\ Check(Ok(Ev.rc), [rc |-> "ECONF_SUCCESS"])
-TFree == IsEvent("free") /\ objs' = [objs EXCEPT ![Ev.h] = Null] /\ UNCHANGED <<fs, errloc>> /\ Check(Ev.ret_null, [ret_null |-> TRUE])
-TDump == /\ IsEvent("dump") /\ UNCHANGED <<fs, objs, errloc>>
+TFree == IsEvent("free") /\ objs' = (IF Ev.h = 0 THEN objs ELSE [objs EXCEPT ![Ev.h] = Null]) /\ UNCHANGED <<fs, errloc, Globals>> /\ Check(Ev.ret_null, [ret_null |-> TRUE])
+TDump == /\ IsEvent("dump") /\ UNCHANGED <<fs, objs, errloc, Globals>>
          /\ IF ~Live(Ev.h) THEN Check(Ev.isnull, [isnull |-> TRUE])
+            ELSE IF ~Known(Ev.h) THEN UNCHANGED diverged
             ELSE LET full == DumpE(objs[Ev.h])
                      \* comments are compared only on request (they are beyond the properties whose checks use this module)
-                     want == IF Ev.cmp_comments THEN full
-                             ELSE [full EXCEPT !.ents = [i \in 1..Len(full.ents) |-> [full.ents[i] EXCEPT !.cb = <<>>, !.ca = <<>>]]] IN
-                 Check(~Ev.isnull /\ Ev.st = want /\ Ev.path = objs[Ev.h].path, [st |-> want, path |-> objs[Ev.h].path])
-TErrLoc == /\ IsEvent("errloc") /\ UNCHANGED <<fs, objs, errloc>>
+                     want0 == IF Ev.cmp_comments THEN full
+                             ELSE [full EXCEPT !.ents = [i \in 1..Len(full.ents) |-> [full.ents[i] EXCEPT !.cb = <<>>, !.ca = <<>>]]]
+                     \* objects parsed with an EMPTY delimiter set are lists of keys: their values are not specified (C02)
+                     want == IF Has("cmp_values") /\ ~Ev.cmp_values
+                             THEN [want0 EXCEPT !.ents = [i \in 1..Len(want0.ents) |-> [want0.ents[i] EXCEPT !.v = <<>>]]] ELSE want0 IN
+                 Check(~Ev.isnull /\ Ev.st = want /\ ((Has("cmp_path") /\ ~Ev.cmp_path) \/ Ev.path = objs[Ev.h].path), [st |-> want, path |-> objs[Ev.h].path])
+TErrLoc == /\ IsEvent("errloc") /\ UNCHANGED <<fs, objs, errloc, Globals>>
            /\ Check(errloc.valid => (Ev.file = errloc.file /\ Ev.line = errloc.line), errloc)
-Next == TReset \/ TFile \/ TNew \/ TReadFile \/ TReadDirs \/ TSet \/ TGet \/ TMerge \/ TWrite \/ TFree \/ TDump \/ TErrLoc
+\* listings (C11): sections in order of first appearance, keys of one section in entry order; an absent / empty section: ECONF_NOKEY
+TKeys == /\ IsEvent("keys") /\ UNCHANGED <<fs, objs, errloc, Globals>>
+         /\ IF ~Known(Ev.h) THEN UNCHANGED diverged
+            ELSE LET ks == Dedup0(KeysE(objs[Ev.h], GroupArg(Ev.g))) IN
+                 IF ks = <<>> THEN Check(~Ok(Ev.rc), [rc |-> "ECONF_NOKEY"]) ELSE Check(Ok(Ev.rc) /\ Ev.out = ks, [out |-> ks])
+TGroups == /\ IsEvent("groups") /\ UNCHANGED <<fs, objs, errloc, Globals>>
+           /\ IF ~Known(Ev.h) THEN UNCHANGED diverged
+              ELSE LET gs == objs[Ev.h].secs IN
+                   IF gs = <<>> THEN Check(~Ok(Ev.rc), [rc |-> "ECONF_NOGROUP"]) ELSE Check(Ok(Ev.rc) /\ Ev.out = gs, [out |-> gs])
+\* econf_set_delimiter_tag / econf_set_comment_tag: what econf_writeFile will use
+TSetTag == /\ IsEvent("settag") /\ UNCHANGED <<fs, errloc, diverged, Globals>>
+           /\ objs' = IF Known(Ev.h) THEN [objs EXCEPT ![Ev.h] = IF Ev.which = "d" THEN [@ EXCEPT !.d = Ev.tag] ELSE [@ EXCEPT !.c = Ev.tag]] ELSE objs
+TSetConfDirs == IsEvent("setconfdirs") /\ gposts' = Ev.dirs /\ UNCHANGED <<fs, objs, errloc, diverged, sec, lw>>
+TSecFlag == IsEvent("secflag") /\ sec' = TRUE /\ UNCHANGED <<fs, objs, errloc, diverged, gposts, lw>>
+TSecReset == IsEvent("secreset") /\ sec' = FALSE /\ UNCHANGED <<fs, objs, errloc, diverged, gposts, lw>>
+\* a call that is outside the modelled fragment: h (if any) is not predicted any more
+\* a call with a missing out-pointer / delimiter set must be refused and changes nothing
+TRefused == IsEvent("refused") /\ UNCHANGED <<fs, objs, errloc, Globals>> /\ Check(~Ok(Ev.rc), [refused |-> TRUE])
+\* a read of bytes outside the conventional grammar (NUL bytes): whether it succeeds is C04's business, not predicted here
+TReadOpaque == IsEvent("readopaque") /\ objs' = AfterRead(Ev.h, IF Ok(Ev.rc) THEN Opaque ELSE Null) /\ errloc' = [errloc EXCEPT !.valid = FALSE]
+               /\ UNCHANGED <<fs, diverged, Globals>>
+TOpaque == IsEvent("opaque") /\ objs' = (IF Ev.h # 0 /\ Live(Ev.h) THEN [objs EXCEPT ![Ev.h] = Opaque] ELSE objs) /\ UNCHANGED <<fs, errloc, diverged, Globals>>
+Next == TReset \/ TFile \/ TNoFile \/ TForget \/ TNew \/ TNewOpt \/ TReadFile \/ TReadDirs \/ TReadConfig \/ TReadHist \/ TSet \/ TGet
+        \/ TMerge \/ TWrite \/ TFree \/ TDump \/ TErrLoc \/ TKeys \/ TGroups \/ TSetTag \/ TSetConfDirs \/ TSecFlag \/ TSecReset \/ TOpaque \/ TRefused \/ TReadOpaque
 Spec == Init /\ [][Next]_vars
 Accepted == TLCGet("stats").diameter - 1 = Len(Tr)
 =============================================================================
